@@ -207,7 +207,7 @@ def main(run: Run):
         if run.replay:
             behs = run.replay_behaviours(sw)
         elif sw == "random":
-            behs = gen(run, sw, num=(12000 if thorough else 600))
+            behs = gen(run, sw, num=(40000 if thorough else 800))
         else:
             behs = gen(run, sw)
         if not behs:
